@@ -33,7 +33,11 @@ CHAINS = [
     [["sort", "-f", "a"]], [["sort", "-nr", "i"]], [["stats1", "-a", "count,sum", "-f", "i", "-g", "a"]], [["nothing"]], [["tac"]],
     [["filter", "$i > 10"]], [["sec2gmt", "i"]], [["put", "-q", "@c[$a] = NR; end { emit @c, \"a\" }"]], [["count-similar", "-g", "a"], ["cat", "-n"]],
     [["fill-empty"], ["rename", "b,bb"]], [["put", "begin { @n = 0 } @n += 1; $n = @n"]],
+    # --seed: every file must restart the sequence, as the same command without -I on that file alone does
+    "seed:" , "seed:", "seed:",
 ]
+SEEDED = [[["put", "$r = urandint(1, 1000)"]], [["shuffle"]], [["bootstrap"]], [["sample", "-k", "2", "-g", "a"]], [["filter", "urand() < 0.6"]],
+          [["cat", "-n"], ["put", "$r = urand32()"]]]
 FMTS = [("dkvp", [], "dkvp"), ("csv", ["--icsv", "--ocsv"], "csv"), ("json", ["--json"], "json"), ("csv", ["--icsv", "--ojson"], "csv"),
         ("dkvp", ["--ojson"], "dkvp"), ("tsv", ["--tsv"], "tsv")]
 
@@ -57,6 +61,9 @@ def decompress(kind, data):
 def build_case(r, tier):
     fmt, flags, ext = r.choice(FMTS)
     chain = r.choice(CHAINS)
+    if chain == "seed:":
+        chain = r.choice(SEEDED)
+        flags = ["--seed", str(r.randint(1, 99999))] + flags
     nfiles = r.choice([1, 1, 2, 2, 3])
     files, names, comp, modes = {}, [], [], []
     for k in range(nfiles):
